@@ -245,6 +245,16 @@ def _apply_fn_renames(d, base):
                     callers.add(b["path"])
             if any(c == r or c.startswith(r + "::") for c in callers for r in base[m]["callers"]):
                 pairs[n] = m
+    # a private function that was MOVED (nested fn <-> module level, into another private module): same own name and signature somewhere else
+    left_m = [m for m in missing if m not in pairs.values()]
+    left_n = [n for n in new if n not in pairs]
+    for m in left_m:
+        leaf = m.rsplit("::", 1)[1]
+        want = (base[m]["inputs"], base[m]["output"])
+        hits = [n for n in left_n if n.rsplit("::", 1)[1] == leaf and sig(cur[n]) == want]
+        rivals = [m2 for m2 in left_m if m2 != m and m2.rsplit("::", 1)[1] == leaf]
+        if len(hits) == 1 and not rivals:
+            pairs[hits[0]] = m
     if not pairs:
         return {}
     _rewrite_strings(d, pairs)
